@@ -8,7 +8,7 @@ import fontsynth
 import fontmut
 from props import heapcheck, segspec
 
-GEN_MODULES = ["Vm"]
+GEN_MODULES = ["Vm", "SlotMap"]
 ASSUMPTIONS = ["theorems: slot-map bound of runFSM, insert budget, growth bound of a pass range, structural termination of code, stack discipline via C07 (Props/C02.lean)",
                "memory safety, absence of undefined behaviour and of leaks are decided on the implementation under ASan/UBSan/LSan, not by a theorem",
                "the rule-loop bound maxRuleLoop x (slots + insert budget + 2) is checked on the hook's counter (GRAPHITE2_VERIF), and the counter itself is compared with the model's"]
@@ -230,6 +230,15 @@ def cursor_hypothesis(ctx, res, q):
             res.evaluations += 1
             res.distinct.add("codecur " + t)
             acc = i.startswith("ok")
+            same = None
+            if m is not None and " same=" in m:
+                m, _, same = m.partition(" same=")
+            if same is not None:
+                res.count("cursor-hyp:decoders-agree=" + same)
+                if same == "0":
+                    # (the loader model CodeLoad.load - accepted_action_passes_cursor_tests - and the pipeline model's mkCode - codeOK - read the same bytes)
+                    res.disagreements.append({"harness": "h_pass", "mode": "loader", "line": "codecur " + t, "impl": i[:300], "model": m + " same=0", "explained_by_failure": False, "exe_args": [bfp],
+                                              "why": "the loader model and the pipeline model decode the same action code into different instruction lists / deletes flags"})
             res.count("cursor-hyp:%s:%s:%s" % ("constraint" if t[0] == "1" else "action", "accepted" if acc else ("fault" if i.startswith(("CRASH", "fault")) else "refused"), m))
             if i.startswith(("CRASH", "fault")):
                 res.failures.append({"harness": "h_pass", "mode": "loader", "line": "code " + t, "impl": i[:300], "model": m, "exe_args": [bfp], "why": "crash / out-of-bounds access in the code loader"})
@@ -239,12 +248,13 @@ def cursor_hypothesis(ctx, res, q):
 
 
 def replay(ctx, obj):
-    if obj.get("harness") == "h_pass" and obj.get("line", "").startswith("code "):
+    if obj.get("harness") == "h_pass" and obj.get("line", "").startswith(("code ", "codecur ")):
         hp = lib.build_harness("h_pass")
-        i = lib.run_lines([hp] + obj.get("exe_args", []), [obj["line"]])[0]
-        m = lib.run_lines([lib.driver_path(), "loader"], ["codecur " + obj["line"][5:]])[0]
+        tail = obj["line"].split(" ", 1)[1]
+        i = lib.run_lines([hp] + obj.get("exe_args", []), ["code " + tail])[0]
+        m = lib.run_lines([lib.driver_path(), "loader"], ["codecur " + tail])[0]
         print("input : %s\nloader: %s\ncursor tests of the theorem (model): %s" % (obj["line"][:400], i[:300], m))
-        return i.startswith(("CRASH", "fault")) or (i.startswith("ok") and m != "cur=1")
+        return i.startswith(("CRASH", "fault")) or (i.startswith("ok") and not m.startswith("cur=1")) or m.endswith("same=0")
     if obj.get("mode") == "shape":
         return heapcheck.replay_shape(obj)
     if obj.get("mode") == "safety" and obj.get("font_hex"):
